@@ -47,6 +47,24 @@ func refDiv(scale *big.Int, mode roundMode) refFn {
 	}
 }
 
+// obsTruncVsEven counts the lattice points at which an integer-divisor quotient (QuoInt / QuoInt64, name
+// without a rounding qualifier, checked as truncation - see the stated assumption) would differ under
+// nearest-even. Reported as an observation, not asserted.
+var (
+	obsTruncVsEven int64
+	counting       bool // mirrors H.countOn (the canonical phase is counted by shard 0 only)
+)
+
+func refQuoIntTrunc(a, b *big.Int) (*big.Int, bool) {
+	if b.Sign() == 0 {
+		return nil, false
+	}
+	if counting && rdiv(a, b, mEven).Cmp(rdiv(a, b, mTrunc)) != 0 {
+		obsTruncVsEven++
+	}
+	return okv(rdiv(a, b, mTrunc))
+}
+
 func refMul(unit *big.Int, mode roundMode) refFn {
 	return func(a, b *big.Int) (*big.Int, bool) { return okv(rdiv(mulr(a, b), unit, mode)) }
 }
@@ -137,7 +155,7 @@ func bigBigIntOps() []*opSpec {
 		{name: "MulInt", ak: kBig, bk: kBigInt, dom: dBig, mode: mExact,
 			call: bI(BD.MulInt), ref: func(a, b *big.Int) (*big.Int, bool) { return okv(mulr(a, b)) }},
 		{name: "QuoInt", ak: kBig, bk: kBigInt, dom: dBig, mode: mTrunc, quo: true,
-			call: bI(BD.QuoInt), ref: refDiv(big1, mTrunc)},
+			call: bI(BD.QuoInt), ref: refQuoIntTrunc},
 	}
 }
 
@@ -146,7 +164,7 @@ func bigInt64Ops() []*opSpec {
 		{name: "MulInt64", ak: kBig, bk: kI64, dom: dBig, mode: mExact,
 			call: b64(BD.MulInt64), ref: func(a, b *big.Int) (*big.Int, bool) { return okv(mulr(a, b)) }},
 		{name: "QuoInt64", ak: kBig, bk: kI64, dom: dBig, mode: mTrunc, quo: true,
-			call: b64(BD.QuoInt64), ref: refDiv(big1, mTrunc)},
+			call: b64(BD.QuoInt64), ref: refQuoIntTrunc},
 		{name: "QuoRaw", ak: kBig, bk: kI64, dom: dBig, mode: mEven, quo: true, tiePrec: 36,
 			call: b64(BD.QuoRaw),
 			ref: func(a, b *big.Int) (*big.Int, bool) {
